@@ -6,7 +6,7 @@ META = dict(
     technique="Coq proof of the reduction of every crash state to a flush point (corollary of C01) + exhaustive-per-history reopening of crash snapshots of the real database",
     level_text="PARTIAL. Machine-checked: C02_reduction_partial — at every crash cut of every storage-call list the recovered file equals the file at the completion of some flush (or the initial file), and the "
                "recovery log is empty afterwards. Not proved: that the bytes at a flush point load into consistent collection structures; this is checked for every sampled crash snapshot of generated histories: "
-               "reopen with DbFile, Db, DbAny(file) and DbAny(mapped) in turn, read every element, property, alias and index and the adjacency lists, and evaluate the state invariants.",
+               "reopen with DbFile, Db, DbAny(file) and DbAny(mapped) in turn, read every element, property, alias and index and the adjacency lists, and evaluate the state invariants. The *_guarded theorems state the same for the recovery with the position check of apply_wal_record (model recover_g, fixes/C07-wal-position.diff): on these logs the check never fires (C01_guarded_recovery_agrees), so the statements hold for a tree with or without it.",
     design_ref="DESIGN.md §5 C02",
     level_note="Trusted: Coq kernel, Rust harness incl. snapshot routine, std::fs. Readability of flush-point states rests on enumeration of the crash snapshots of generated histories.",
 )
